@@ -291,6 +291,11 @@ func genRecover(seed uint64, g *gen, thorough bool) *Case {
 	if r.p(0.4) {
 		dm.Blocks = r.rng(1, 4)
 	}
+	if r.p(0.3) {
+		// small level-0 triggers: automatic level-0 compactions right after
+		// Recover, when level 0 holds every table
+		c.Knobs.L0Trigger = r.pick(2, 3, 4)
+	}
 	c.Damage = dm
 	if r.p(0.4) {
 		// explicit strictness levels that keep block checksums on (damage must
@@ -301,6 +306,10 @@ func genRecover(seed uint64, g *gen, thorough bool) *Case {
 	if dm.Blocks == 0 {
 		p2 := profile{ops: [2]int{3, 40}, maxMoves: 20, syncP: 0.1}
 		p2.wWrite, p2.wGet, p2.wIter, p2.wCompact, p2.wReopen = 50, 30, 10, 5, 5
+		if r.p(0.3) {
+			p2.ops = [2]int{40, 150}
+			p2.wWrite, p2.wGet, p2.wCompact = 75, 15, 1
+		}
 		c.Clients = append(c.Clients, g.program(p2))
 	}
 	return c
